@@ -32,6 +32,37 @@ def fill_steps(rng, mk, h, nsteps=None, forms=('pix', 'pix', 'setitem_arr', 'rin
     return out
 
 
+def cross_check_derived(rng, mk, h, out, what=None):
+    """steps: derive map [out] from map [h] through a producer that hands on the coverage object (scalar operator,
+    astype, as_bit_packed_map, field copy), check it; grow [h], re-check [out]; grow [out], re-check [h]"""
+    what = what or ['values', 'cov', 'valid', 'nvalid', 'raw', 'layout']
+    kind = mk['kind']
+    steps = []
+    if kind == 'plain' and mk.get('dtype') == 'b':
+        cands = [dict(op='bconst', h=h, out=out, fn=rng.choice(['or', 'xor']), const=False, inplace=False)]
+        if mk['ns'] >= 4 * mk['nc']:
+            cands.append(dict(op='aspacked', h=h, out=out))      # needs two levels between coverage and map
+        steps.append(rng.choice(cands))
+    elif kind == 'packed':
+        steps.append(dict(op='bconst', h=h, out=out, fn=rng.choice(['or', 'xor']), const=False, inplace=False))
+    elif kind == 'plain':
+        if rng.random() < 0.5:
+            steps.append(dict(op='astype', h=h, out=out, dtype=mk['dtype'], sentinel=mk.get('sentinel')))
+        else:
+            steps.append(dict(op='sop', h=h, out=out, inplace=False, fn='+', scalar=0.0 if mk['dtype'] in FLT_DT else 0))
+    elif kind == 'rec':
+        steps.append(dict(op='single', h=h, out=out, field=rng.choice([n for n, _ in mk['fields']]), copy=True))
+    else:
+        steps.append(dict(op='sop', h=h, out=out, inplace=False, fn='|', bits=[0]))
+    steps.append(chk(out, what))
+    g = dict(op='grow', which=rng.randrange(5), off=rng.randrange(16), alt=rng.randrange(40))
+    if rng.random() < 0.5:
+        steps += [dict(g, h=h), chk(h, what), chk(out, what), dict(g, h=out, which=g['which'] + 1), chk(out, what), chk(h, what)]
+    else:
+        steps += [dict(g, h=out), chk(out, what), chk(h, what), dict(g, h=h, which=g['which'] + 1), chk(h, what), chk(out, what)]
+    return steps
+
+
 # ------------------------------------------------------------------ C12
 def gen_c12(rng):
     kind = rng.choice(['plain', 'plain', 'plain', 'wide'])
@@ -448,9 +479,35 @@ def gen_c07(rng):
                              values=[wv[j] for j in o2], single=False))
         hw = 1
         hist.append(chk(1, ['values', 'cov', 'valid', 'nvalid']))
+    if kind == 'rec' and pix:
+        # records that are invalid (primary = sentinel) but carry values in the other fields, in the middle of
+        # valid ones: degrade and the degraded export by key must ignore them
+        names = [n_ for n_, _ in mk['fields']]
+        ip = names.index(mk['primary'])
+        pdt = dict(mk['fields'])[mk['primary']]
+        sentv = mk.get('sentinel')
+        if sentv is None and pdt in FLT_DT:
+            sentv = -1.6375e+30
+        if sentv is not None and rng.random() < 0.5:
+            extra = []
+            for p0 in pix[:3]:
+                for q0 in (p0 ^ 1, p0 ^ 2):
+                    if q0 not in pix and q0 not in extra and 0 <= q0 < npix:
+                        extra.append(q0)
+            extra = extra[:3]
+            if extra:
+                recs = []
+                for _ in extra:
+                    v_ = list(rand_value(rng, mk, allow_sentinel=False))
+                    v_[ip] = sentv
+                    recs.append(v_)
+                hist.append(dict(op='upd', h=0, form='pix', operation='replace', expect='ok', pixels=extra, values=recs,
+                                 single=False))
     hist.append(chk(0))
     hist.append(dict(op='degrade', h=0, out=5, nside_out=nside_out, reduction=red, hw=hw))
     hist.append(chk(5))
+    if kind == 'rec' and red in ('mean', 'median', 'max', 'min', 'sum', 'std') and nside_out >= cfg[0]:
+        hist.append(dict(op='tohp', h=0, nside=nside_out, reduction=red, key=rng.choice([n_ for n_, _ in mk['fields']])))
     hist.append(chk(0))                 # the source is unchanged
     if hw is not None:
         hist.append(chk(1, ['values', 'cov', 'valid', 'nvalid', 'raw']))     # and so are the weights
@@ -528,6 +585,10 @@ def gen_c08(rng):
     hist = [mk]
     if rng.random() < 0.6:
         hist += fill_steps(rng, mk, 0, rng.randint(1, 2), forms=('pix', 'setitem_arr'))
+    if rng.random() < 0.25:
+        # the same content over storage that does not own its memory (as after a read or a degrade): growth has
+        # to replace the storage array
+        hist.append(dict(op='rewrap', h=0, out=0, pad=rng.randint(0, 5)))
     hist.append(chk(0))
     for _ in range(rng.randint(1, 4)):
         ops = legal_ops(mk)
@@ -636,6 +697,14 @@ def gen_c14(rng):
         f = rng.choice(names)
         hist.append(dict(op='single', h=0, out=10, field=f, copy=True))
         hist.append(chk(10, ['values', 'cov', 'valid', 'nvalid']))
+        if rng.random() < 0.3:
+            # the copy is a map of its own: growing it must not be seen through the parent, and vice versa
+            hist.append(dict(op='grow', h=10, which=rng.randrange(5), off=rng.randrange(16), alt=rng.randrange(40)))
+            hist.append(chk(10, ['values', 'cov', 'valid', 'nvalid', 'raw', 'layout']))
+            hist.append(chk(0))
+            hist.append(dict(op='grow', h=0, which=rng.randrange(5), off=rng.randrange(16), alt=rng.randrange(40)))
+            hist.append(chk(0))
+            hist.append(chk(10, ['values', 'cov', 'valid', 'nvalid', 'raw', 'layout']))
         f = rng.choice(names)
         hist.append(dict(op='single', h=0, out=11, field=f, copy=False))
         hist.append(chk(11, ['values', 'cov', 'valid']))
@@ -718,6 +787,8 @@ def gen_c02(rng):
         else:
             hist.append(rand_update(rng, mk, h=0, forms=('pix', 'setitem_arr')))
         hist.append(chk(0, CHK_ACC))
+    if rng.random() < 0.3 and mk['kind'] != 'wide':
+        hist += cross_check_derived(rng, mk, 0, 60, what=CHK_ACC)
     return hist
 
 
@@ -794,8 +865,14 @@ def gen_c09(rng):
     elif prod == 'amask':
         mm = mk_plain(rng, 1, cfg, 'u2', sentinel=0)
         hist.append(mm)
-        hist.append(dict(op='upd', h=1, form='pix', operation='replace', expect='ok', pixels=pix[:max(1, len(pix) // 2)],
-                         values=[rng.choice([1, 2, 3]) for _ in pix[:max(1, len(pix) // 2)]], single=False))
+        if rng.random() < 0.3:
+            # a mask that selects none of the valid pixels: the result is still a new map
+            free = [p for p in range(npix_of(cfg)) if p not in pix][:3] or [0]
+            hist.append(dict(op='upd', h=1, form='pix', operation='replace', expect='ok', pixels=free,
+                             values=[1 for _ in free], single=False))
+        else:
+            hist.append(dict(op='upd', h=1, form='pix', operation='replace', expect='ok', pixels=pix[:max(1, len(pix) // 2)],
+                             values=[rng.choice([1, 2, 3]) for _ in pix[:max(1, len(pix) // 2)]], single=False))
         srcs.append(1)
         hist.append(dict(op='amask', h=0, out=out, hm=1, inplace=False, mode='none'))
     elif prod == 'single':
@@ -898,6 +975,12 @@ def gen_c03(rng):
     st = dict(op='wr', h=0, out=5, compress=rng.random() < 0.5, pixels=pixels)
     if md is not None:
         st['metadata'] = md
+        if rng.random() < 0.4:
+            # the accepted metadata first, then an assignment that must be rejected: the file carries the former
+            hist.append(dict(op='setmeta', h=0, metadata=md))
+            hist.append(dict(op='setmeta', h=0, bad=True, metadata=dict(md, AKEY=-1, lowercase=3)))
+            st.pop('metadata')
+            st['expect_metadata'] = md
     hist.append(st)
     hist.append(dict(op='ifexists', h=5))
     hist.append(chk(5, ['values', 'cov', 'valid', 'nvalid', 'raw', 'layout', 'paths', 'covmap']))
@@ -1036,7 +1119,20 @@ def gen_c10(rng):
             hist.append(dict(op='sameas', h=nxt + 4, ref=nxt + 3,
                              what='weighted degrade of content-equal maps differs'))
             nxt += 5
-        elif q < 0.35:
+        elif q < 0.2 and m1 != 0 and route in ('astype', 'sop', 'single', 'copy', 'rewrap', 'bmap'):
+            # the map m1 was derived from is still alive: growing either of the two must not show in the other
+            a = dict(op='grow', h=m1, which=rng.randrange(5), off=rng.randrange(16), alt=rng.randrange(40))
+            hist += [a, dict(a, h=m2), chk(0)]
+            b0 = dict(op='grow', h=0, which=rng.randrange(5), off=rng.randrange(16), alt=rng.randrange(40))
+            hist += [b0, chk(0)]
+        elif q < 0.35 and mk['kind'] in ('plain', 'packed', 'wide') and route not in ('degrade', 'upgrade', 'astype', 'single'):
+            # the count is queried, then both twins get the same update through the pixel-range path
+            ops_ = legal_ops(mk)
+            op_ = rng.choice([o for o in ops_ if o != 'add'] or ['replace'])
+            st_ = dict(op='rng', operation=op_, thr=0, ranges=rand_ranges(rng, cfg, overlapping=False))
+            st_['value'] = None if (op_ == 'replace' and rng.random() < 0.3) else rand_value(rng, mk, allow_sentinel=False)
+            hist += [chk(m1, ['nvalid']), chk(m2, ['nvalid']), dict(st_, h=m1), dict(st_, h=m2)]
+        elif q < 0.45:
             a = dict(op='grow', h=m1, which=rng.randrange(5), off=rng.randrange(16), alt=rng.randrange(40))
             hist += [a, dict(a, h=m2)]
         elif q < 0.55:
@@ -1101,6 +1197,42 @@ def gen_c16(rng):
         lat += [max(-89.9, min(89.9, float(x) + rng.uniform(-0.5, 0.5))) for x in plat]
         lon = [x % 360.0 for x in lon]
         hist.append(dict(op='interp', h=0, lon=lon, lat=lat))
+    return hist
+
+
+def gen_c16_rec(rng):
+    """a record-array map updated through a field view with RING-ordered pixels (nest=False)"""
+    mk = pick_map(rng, kinds=('rec',), h=0)
+    names = [n for n, _ in mk['fields']]
+    hist = [mk]
+    pix = rand_pixels(rng, mk, unique=True, nmax=8)
+    vals = [rand_value(rng, mk, allow_sentinel=False) for _ in pix]
+    # every record stays valid throughout: the primary field never holds the map's sentinel (writing the sentinel
+    # through a view is F22/F32 territory, decided under C02 and C14, not here)
+    ip = names.index(mk['primary'])
+    pt = dict(mk['fields'])[mk['primary']]
+    sent = mk.get('sentinel')
+    if sent is None and pt not in FLT_DT:
+        sent = INT_RANGE[pt][0]
+    for v in vals:
+        while sent is not None and v[ip] == sent:
+            v[ip] = v[ip] + 1
+    hist.append(dict(op='upd', h=0, form='pix', operation='replace', expect='ok', pixels=pix, values=vals, single=False))
+    hist.append(chk(0))
+    for _ in range(rng.randint(1, 2)):
+        f = rng.choice(names)
+        ft = dict(mk['fields'])[f]
+        sub = [p for p in pix if rng.random() < 0.6] or pix[:1]
+        if ft in FLT_DT:
+            vv = [rng.randint(1, 32) / 4.0 for _ in sub]
+        else:
+            lo, hi = INT_RANGE[ft]
+            vv = [rng.randint(1, min(hi, 20)) for _ in sub]
+        if f == mk['primary'] and sent is not None:
+            vv = [v + 1 if v == sent else v for v in vv]
+        hist.append(dict(op='vwrite', h=0, field=f, pixels=sub, values=vv, target='valid', ring=True))
+        hist.append(chk(0))
+    hist.append(dict(op='tohp', h=0, key=rng.choice(names)))
     return hist
 
 
@@ -1218,7 +1350,9 @@ def gen_c18(rng):
     region = rng.randrange(12)
     region_lo, region_hi = region * (npix // 12), (region + 1) * (npix // 12)
     used = set()
-    overlap_wanted = rng.random() < 0.15
+    overlap_wanted = rng.random() < 0.25
+    if overlap_wanted:
+        nfiles = max(nfiles, 2)
     for k in range(nfiles):
         mk = dict(base)
         mk['h'] = k
@@ -1236,6 +1370,11 @@ def gen_c18(rng):
             pix.append(p)
         if not pix:
             pix = [p for p in range(region_lo, region_hi) if p not in used][:1]
+        if overlap_wanted and used and rng.random() < 0.7:
+            # share one or two valid pixels with an earlier file
+            for p in rng.sample(sorted(used), min(len(used), rng.randint(1, 2))):
+                if p not in pix:
+                    pix.append(p)
         used.update(pix)
         vals = [rand_value(rng, mk, allow_sentinel=False) for _ in pix]
         if kind == 'wide':
@@ -1258,6 +1397,9 @@ def gen_c18(rng):
     st = dict(op='cat', hs=hs, out=20, nside_coverage_out=nc_out)
     if rng.random() < 0.5 or overlap_wanted:
         st['check_overlap'] = True
+    if rng.random() < (0.5 if overlap_wanted else 0.15):
+        # or_overlap: integer maps (wide masks included) are or-ed where inputs overlap, other kinds still raise
+        st['or_overlap'] = True
     hist.append(st)
     hist.append(dict(op='ifexists', h=20))
     hist.append(chk(20, ['values', 'valid', 'nvalid', 'layout', 'cov', 'raw']))
@@ -1508,15 +1650,16 @@ def gen_geom(rng, wide_only=False):
             hist.append(chk(nxt))
             nxt += 1
         elif q < 0.42 and kind in ('wide', 'int'):
+            hist.append(chk(0, ['nvalid']))
             hist.append(dict(op='geom', mode='realize', h=0, shapes=[rand_shape(rng, cfg[1]) for _ in range(rng.randint(1, 2))],
-                             value=val()))
+                             value=val(), thr=rng.choice([None, 0])))
             hist.append(chk(0))
         else:
             modes = ['or', 'ior', 'and', 'iand']
             if kind == 'int':
                 modes += ['add', 'iadd']
             mode = rng.choice(modes)
-            st = dict(op='geom', mode=mode, h=0, shape=rand_shape(rng, cfg[1]), value=val())
+            st = dict(op='geom', mode=mode, h=0, shape=rand_shape(rng, cfg[1]), value=val(), thr=rng.choice([None, 0, 0]))
             if mode in ('or', 'and', 'add'):
                 st['out'] = nxt
             hist.append(chk(0, ['nvalid']))
